@@ -464,3 +464,12 @@ Proof.
   split; [|reflexivity].
   apply sk_keep. apply sk_drop; [reflexivity|]. apply sk_keep. apply sk_keep. apply sk_nil.
 Qed.
+
+(* the hypotheses of C11_full_drained are satisfiable: the concrete world of the examples above *)
+Example C11_full_drained_nonvacuous :
+  paced_drained {| dh_cfg := ex_C true; dh_world := ex_world;
+                   dh_ops := [Touch (ex_sl ex_R 97); Rename (ex_sl ex_R 97) (ex_sl ex_O 99); Mkdir (ex_sl ex_R 109)] |}.
+Proof.
+  split; [reflexivity|]. split; [discriminate|]. split; [reflexivity|]. split; [repeat constructor|].
+  intros full recursive. destruct full, recursive; vm_compute; discriminate.
+Qed.
